@@ -82,5 +82,5 @@ for be in BACKS:
              'void process_completion_event ( EventSource source = EVENT_SOURCE_DEFAULT )'),
         'void pce_unit(eventless_helper_t* h, EventSource source)', 'evloop_back.spec.h', defines=['UNIT_PCE=1'],
         xform=back_xform([], refparams=(), pre_rewrites=[dict(name='TVAR-first-completion-event', pat='typedef typename deref < $*A first_completion_event ;', rep='', min=1, max=1)], rewrites=[
-            dict(name='member-handled', pat='if ( handled )', rep='if ( h -> handled )', min=1, max=1),
+            dict(name='member-handled', pat='( handled )', rep='( h -> handled )', min=0, max=2), dict(name='member-handled-not', pat='! handled', rep='! h -> handled', min=0, max=2),
             dict(name='member-call', pat='self -> process_event_internal ( first_completion_event ( ) , source | EVENT_SOURCE_DIRECT ) ;', rep='pei_completion ( h -> self , source | EVENT_SOURCE_DIRECT ) ;', min=0, max=1)]), replay=['queue']))
